@@ -485,6 +485,16 @@ impl<S, V> PrepareCallCtx<'_, S, V> {
         let asset_id =
             AssetId::new(self.memory.read_bytes(self.params.asset_id_pointer)?);
 
+        // A verifier that aborts on a missing input is consulted before any storage access,
+        // so that nothing of a contract outside the inputs is read.
+        if V::ABORTS_ON_MISSING_INPUT {
+            self.verifier.check_contract_in_inputs(
+                self.panic_context,
+                self.input_contracts,
+                call.to(),
+            )?;
+        }
+
         let code_size = contract_size(&self.storage, call.to())? as usize;
         let code_size_padded =
             padded_len_usize(code_size).ok_or(PanicReason::MemoryOverflow)?;
@@ -512,11 +522,13 @@ impl<S, V> PrepareCallCtx<'_, S, V> {
             )?;
         }
 
-        self.verifier.check_contract_in_inputs(
-            self.panic_context,
-            self.input_contracts,
-            call.to(),
-        )?;
+        if !V::ABORTS_ON_MISSING_INPUT {
+            self.verifier.check_contract_in_inputs(
+                self.panic_context,
+                self.input_contracts,
+                call.to(),
+            )?;
+        }
 
         // credit contract asset_id balance
         let created_new_entry = balance_increase(
